@@ -193,6 +193,19 @@ def first_significant_positive(col, thr):
     return True
 
 
+def sign_decider(col):
+    """the coordinate that settles the sign of a column in the phase loop: the first one with |x| >= 1e-8 (None: none)"""
+    return next((float(v) for v in col if abs(v) >= NOISE), None)
+
+
+def sign_undetermined(tol, *cols):
+    """The sign-deciding coordinate of one of these internal columns (the same axis in two orientations that are to be compared) is no
+    larger than tol, the accuracy to which the coordinates of this molecule are reproduced between the two (rounding / zero flip
+    amplified by the conditioning of the eigenvectors): the perturbation may carry it through zero, so the sign of the column is not
+    determined at the accuracy claimed and the columns are compared up to sign."""
+    return any(d is not None and abs(d) <= tol for d in (sign_decider(c) for c in cols))
+
+
 FLUSH = 5.0 ** -9          # float_prep's zero-flip threshold for the geometry (5 ** -(GEOMETRY_NOISE + 1) = 5.12e-7)
 
 
@@ -370,7 +383,10 @@ def oracle(case):
     # is not a function of the stored molecule, so it is compared up to sign below, and counted.
     def sign_free(ax):
         j = next((k for k in range(n) if g1[k, ax] != 0.0), None)
-        return j is not None and any(abs(raw[k, ax]) >= 0.4 * NOISE for k in range(j))
+        if j is not None and any(abs(raw[k, ax]) >= 0.4 * NOISE for k in range(j)):
+            return True
+        # routes that start from the caller's numbers and from the stored (zero-flipped) molecule: coordinates agree to rtol only
+        return rtol > 0 and sign_undetermined(rtol, raw[:, ax])
     free = [sign_free(ax) for ax in range(3)]
     obs["sign_free_axes"] = sum(free)
 
@@ -485,10 +501,11 @@ def oracle(case):
         if dd > 1e-7 * scale + max(flip_slack(np.array(mol2._orient_molecule_internal(), dtype=float)), flip_slack(qin)):
             bad("an interatomic distance changed (moved copy)", float(dd))
         if asym:
+            rawm = np.array(mol2._orient_molecule_internal(), dtype=float)
             for ax in range(3):
                 c1, c2 = g1[:, ax], g2[:, ax]
                 tiny = np.abs(c1).max() < 3e-8 and np.abs(c2).max() < 3e-8
-                if not tiny and free[ax] and np.abs(c1 + c2).max() <= utol:
+                if not tiny and (free[ax] or sign_undetermined(utol, raw[:, ax], rawm[:, ax])) and np.abs(c1 + c2).max() <= utol:
                     continue
                 if not tiny and np.abs(c1 - c2).max() > utol:
                     bad("two rigidly moved copies of an asymmetric top orient to different coordinates",
@@ -504,8 +521,7 @@ def oracle(case):
             # second orientation, no larger than the accuracy utol to which this very molecule's coordinates are reproduced (the rounding /
             # zero flip amplified by the conditioning of its eigenvectors), the perturbation may carry it through zero: the sign of the
             # column is not determined at the accuracy claimed, and the column is compared up to sign (everything else as before); counted.
-            dec = [next((float(v) for v in col if abs(v) >= NOISE), None) for col in (raw[:, ax], raw2[:, ax])]
-            if not tiny and any(d is not None and abs(d) <= utol for d in dec) and np.abs(c1 - c3).max() > utol and np.abs(c1 + c3).max() <= utol:
+            if not tiny and sign_undetermined(utol, raw[:, ax], raw2[:, ax]) and np.abs(c1 - c3).max() > utol and np.abs(c1 + c3).max() <= utol:
                 obs["twice_sign_undetermined_axes"] = obs.get("twice_sign_undetermined_axes", 0) + 1
                 continue
             if not tiny and np.abs(c1 - c3).max() > utol:
@@ -862,6 +878,10 @@ def gen_cases(ctx):
     # a flush-zone Cl5 with a tiny gap between two moments (coordinates reproduced to 5e-4 only): the second orientation carries the
     # sign-deciding atom (1.5e-8 off the plane, stored as 0.0) through zero and negates the column (was a false alarm: screening seed 53)
     cases.append({'symbols': ['Cl', 'Cl', 'Cl', 'Cl', 'Cl'], 'geom': [['395833351111/500000000000', '3291666648889/500000000000', '-733333271111/1000000000000'], ['-2541666631111/1000000000000', '916666631111/1000000000000', '-516666651111/250000000000'], ['249368669091/500000000000', '697979805091/200000000000', '-4905050567273/1000000000000'], ['-4026515187071/1000000000000', '2893939411717/500000000000', '-1006060668283/1000000000000'], ['451388888889/500000000000', '986111111111/500000000000', '1711111111111/1000000000000']], 'shape': 'flushzone', 'extra': {'name': 'annotated-953', 'comment': 'carries every optional block', 'identifiers': {'smiles': 'CC', 'pubchem_cid': '764369', 'pubchem_sid': '130', 'inchi': 'InChI=1S/probe42', 'molecule_hash': '34dd00e27c3d78d07e97ee249b96be587850805a', 'molecular_formula': 'X5', 'inchikey': 'PROBEKEY-5587'}, 'extras': {'tag': 0, 'origin': 'c16', 'nested': {'a': [1, 2]}}, 'provenance': {'creator': 'c16-probe', 'version': '1.0', 'routine': 'harness.props.c16'}, 'atom_labels': ['a', 'x', 'x', 'x', 'x'], 'connectivity': [(1, 2, 1.5), (1, 4, 2.0)]}, 'flags': {'fix_com': True, 'fix_orientation': True, 'fix_symmetry': 'c1'}, 'motion': {'q': [0, -2, 4, 2], 't': ['0/1', '-1/1', '19/5']}, 'stream': 'corpus'})
+    # a flush-zone F5 one of whose input coordinates (-3.1e-7) the constructor sets to zero: the stored molecule is tilted by ~1e-6
+    # against the caller's numbers, which carries the sign-deciding atom (3.5e-7 off the plane) through zero; the routes that start from
+    # the caller's numbers and from the stored molecule, and the moved copy, differ by the sign of that column (screening seed 148)
+    cases.append({'symbols': ['F', 'F', 'F', 'F', 'F'], 'geom': [['1527778088889/1000000000000', '-2777777738889/1000000000000', '-640277738889/250000000000'], ['2472222533333/1000000000000', '-5222222183333/1000000000000', '-3838888733333/1000000000000'], ['1777777466667/1000000000000', '-4527777816667/1000000000000', '-5436111266667/1000000000000'], ['-311111/1000000000000', '-3750000038889/1000000000000', '-518750038889/250000000000'], ['2111111111111/500000000000', '-1861111111111/500000000000', '-2088888888889/1000000000000']], 'shape': 'flushzone', 'flags': {'fix_symmetry': 'c1'}, 'motion': {'q': [3, 4, -3, 1], 't': ['-31/8', '-1/1', '4/5']}, 'stream': 'corpus'})
     cases.append({"stream": "corpus", "shape": "atom", "symbols": ["Ne"], "geom": z((1, 2, 3)), "motion": {"q": [1, 0, 1, 0], "t": ["1", "1", "1"]}})
     # history corpus: one structure as four isotopologues (default, HDO-like, 18-O / 13-C / T, explicit masses), one after the other
     cases.append({"stream": "history", "shape": "history", "symbols": ["O", "H", "H", "C", "H"],
